@@ -6,12 +6,10 @@
        the non-ignored edges covers them, so it has at least as many paths as any antichain),
    (4) an optimum with at most #positive-edges paths exists (greedy peeling), so the inclusive range
        [lower bound, |E|] contains the least feasible k.
-   Completeness of the LP (every decomposition into <= k paths is a satisfying assignment) is what makes
-   "feasible k" mean "a decomposition into <= k paths exists"; it is not yet proved in Coq and is the
-   stated gap of this file (see C03_full_statement). *)
+   (5) completeness of the LP: every decomposition into k paths is a satisfying assignment (constraint-free case). *)
 From Coq Require Import List NArith ZArith QArith Bool Arith Lia Permutation.
 Import ListNotations.
-From FP Require Import Lin Blocks BlocksProofs PathEnc PathEncProofs Cover CoverProofs Peel PeelProofs1 PeelProofs2 PeelProofs3
+From FP Require Import Lin Blocks BlocksProofs PathEnc PathEncProofs PathEncComplete Cover CoverProofs Peel PeelProofs1 PeelProofs2 PeelProofs3
                        Search SearchProofs1 SearchProofs2.
 Local Close Scope Q_scope.
 
@@ -49,8 +47,51 @@ Theorem C03_decomposition_with_at_most_npos_paths_exists : forall G P S topo (f 
 Proof. exact greedy_peeling_explains_code. Qed.
 Print Assumptions C03_decomposition_with_at_most_npos_paths_exists.
 
-(* the statement whose remaining gap is LP completeness *)
-Definition C03_full_statement : Prop :=
-  forall (I : kfd_inst) (ps : list (list node)) (ws : list Q),
-    (* a decomposition into k = length ps weighted s-t paths explaining the non-ignored flow *) True ->
-    exists a, sat a (encode_kfd I).
+(* (5) completeness of the LP (no subpath constraints): EVERY decomposition into k weighted simple
+   source-to-sink paths explaining the non-ignored flow is a satisfying assignment.  With (1): the model
+   for k is feasible  <=>  a decomposition into k paths (zero weights allowed) exists, which is what
+   "feasible k" means in the search theorem (2). *)
+Theorem C03_every_decomposition_satisfies_the_lp :
+  forall (I : kfd_inst) (P : N -> list node) (w : N -> Q),
+  PathEncProofs.wf_graph (p_graph (f_base I)) -> p_cons (f_base I) = [] -> p_allow_empty (f_base I) = false ->
+  (forall i, In i (layers (p_k (f_base I))) ->
+     hd_error (P i) = Some (g_src (p_graph (f_base I))) /\
+     last (P i) (g_src (p_graph (f_base I))) = g_snk (p_graph (f_base I)) /\
+     NoDup (P i) /\ incl (EulerProofs1.pairs (P i)) (g_edges (p_graph (f_base I)))) ->
+  (forall i, In i (layers (p_k (f_base I))) -> (0 <= w i <= f_wmax I)%Q /\ (f_int I = true -> is_int (w i))) ->
+  (forall e, In e (g_edges (p_graph (f_base I))) -> mem_edge e (f_ignore I) = false ->
+     (sumq (fun i => w i * indq (mem_edge e (EulerProofs1.pairs (P i)))) (layers (p_k (f_base I))) == lookup_q e (f_flow I) 0)%Q) ->
+  sat (asg P w) (encode_kfd I).
+Proof. exact kfd_complete. Qed.
+Print Assumptions C03_every_decomposition_satisfies_the_lp.
+
+(* (6) the LP for k is feasible exactly when a decomposition into k simple source-to-sink paths exists *)
+Theorem C03_k_model_feasible_iff_decomposition_exists : forall (I : kfd_inst) (rank : node -> nat) (Rm : nat),
+  PathEncProofs.wf_graph (p_graph (f_base I)) -> p_cons (f_base I) = [] -> p_allow_empty (f_base I) = false ->
+  (forall u v, In (u, v) (g_edges (p_graph (f_base I))) -> (rank u < rank v)%nat) -> (forall v, (rank v <= Rm)%nat) ->
+  ((exists a, sat a (encode_kfd I)) <-> (exists P w, decomposition I P w)).
+Proof. exact kfd_feasible_iff. Qed.
+Print Assumptions C03_k_model_feasible_iff_decomposition_exists.
+
+(* (7) THE PROPERTY, composed: with a solver that decides each generated LP exactly, the search returns the least
+   number of paths of any decomposition, provided that number lies in the searched range (which (3) and (4)
+   guarantee for the range [width lower bound, |E|] the code uses) *)
+Theorem C03_minflowdecomp_returns_the_minimum :
+  forall (inst : nat -> kfd_inst) (rank : node -> nat) (Rm : nat) (feasible : nat -> bool) (lb ub kopt : nat) (sts : list raw),
+  (forall k, p_k (f_base (inst k)) = k /\ PathEncProofs.wf_graph (p_graph (f_base (inst k))) /\ p_cons (f_base (inst k)) = [] /\
+             p_allow_empty (f_base (inst k)) = false /\
+             (forall u v, In (u, v) (g_edges (p_graph (f_base (inst k)))) -> (rank u < rank v)%nat)) ->
+  (forall v, (rank v <= Rm)%nat) ->
+  (forall k, feasible k = true <-> exists a, sat a (encode_kfd (inst k))) ->
+  (forall i, (i < ub - lb)%nat -> exists x, nth_error sts i = Some x /\
+             status_of x = if feasible (lb + i)%nat then Optimal else Infeasible) ->
+  (exists P w, decomposition (inst kopt) P w) ->
+  (forall k, (k < kopt)%nat -> ~ exists P w, decomposition (inst k) P w) ->
+  (lb <= kopt < ub)%nat ->
+  so_res (mpc_solve true lb ub sts) = Solved kopt.
+Proof. exact mfd_returns_minimum. Qed.
+Print Assumptions C03_minflowdecomp_returns_the_minimum.
+
+(* remaining gap, stated: the same characterisation in the presence of subpath constraints (R variables),
+   node-weighted input (goes through C11's expansion theorems) and the guessed-weights / greedy shortcuts
+   (covered by C13's search theorems and C17's peeling theorem respectively) are not composed into one statement. *)
